@@ -379,4 +379,193 @@ def flowReportOf (counter : Nat) (s₂ : Schedule) : RShared :=
 
 def flowReport (i : FlowIn) (s₂ : Schedule) : RShared := flowReportOf (flowCopy i).counter s₂
 
+/-! ## Tunnel.Start interleaved with Tunnel.Close
+
+`Tunnel.Start` (internal/client/tunnel/tunnel.go) as its atomic steps: the `manager.Ctx()`
+interface call, `SetCtx` (one `currentLock` section: binds a fresh live context and resets the
+latch, unless a context is already bound), the `Connecting→Connected` CAS (on failure Start
+returns an error), the spawn of `monitorPeerNotification`, `monitorTimeout` (5-minute timer) and
+`runDataCopy`.  Thread 0 is the starter, the others are closers (the repaired `Tunnel.Close`:
+load, CAS, close sequence, final store).  The close sequence's `Dispose.Close` cancels the
+context only if one is bound and the latch is open.  The monitors end when the context is
+cancelled, the copy ends when the connections are closed.
+`StartOrder.casFirst` is the rejected variant "CAS, then manager.Ctx(), then SetCtx". -/
+
+inductive StartOrder | setCtxFirst | casFirst
+  deriving DecidableEq, Repr
+
+structure UShared where
+  state : Nat
+  disposed : Bool         -- Dispose.closed
+  ctxBound : Bool
+  ctxCancelled : Bool
+  spawned : Bool          -- monitors and copy goroutine started
+  startRes : Nat          -- Start: 0 not returned, 1 nil, 2 error
+  closes : Nat            -- close sequences run (onClosed calls)
+  deriving DecidableEq, Repr
+
+inductive UPc | sMgr | sSet | sCas | sSpawn | load | cas | body | fin | done
+  deriving DecidableEq, Repr
+
+structure ULocal where
+  pc : UPc
+  seen : Nat
+  deriving DecidableEq, Repr
+
+def uStep (ord : StartOrder) (_tid : Nat) (sh : UShared) (l : ULocal) : UShared × ULocal :=
+  match l.pc with
+  | .sMgr => (sh, { l with pc := .sSet })
+  | .sSet =>
+    (if sh.ctxBound then sh else { sh with ctxBound := true, ctxCancelled := false, disposed := false },
+     { l with pc := match ord with | .setCtxFirst => .sCas | .casFirst => .sSpawn })
+  | .sCas =>
+    if sh.state = 0 then
+      ({ sh with state := 1 }, { l with pc := match ord with | .setCtxFirst => .sSpawn | .casFirst => .sMgr })
+    else ({ sh with startRes := 2 }, { l with pc := .done })
+  | .sSpawn => ({ sh with spawned := true, startRes := 1 }, { l with pc := .done })
+  | .load =>
+    if 2 ≤ sh.state then (sh, { l with pc := .done, seen := sh.state })
+    else (sh, { l with pc := .cas, seen := sh.state })
+  | .cas =>
+    if sh.state = l.seen then ({ sh with state := 2 }, { l with pc := .body })
+    else (sh, { l with pc := .load })
+  | .body =>
+    (if sh.disposed then { sh with closes := sh.closes + 1 }
+     else { sh with closes := sh.closes + 1, disposed := true, ctxCancelled := sh.ctxCancelled || sh.ctxBound },
+     { l with pc := .fin })
+  | .fin => ({ sh with state := 3 }, { l with pc := .done })
+  | .done => (sh, l)
+
+def uProg (ord : StartOrder) : Prog UShared ULocal := ⟨uStep ord⟩
+
+/-- Thread 0 = `Start`, threads 1…n = closers; the tunnel is `Connecting`. -/
+def uInit (ord : StartOrder) (n : Nat) : Cfg UShared ULocal :=
+  ⟨⟨0, false, false, false, false, 0, 0⟩,
+   ⟨match ord with | .setCtxFirst => .sMgr | .casFirst => .sCas, 0⟩ :: List.replicate n ⟨.load, 0⟩⟩
+
+def uWeight (sh : UShared) (l : ULocal) : Nat :=
+  match l.pc with
+  | .sMgr => 4 | .sSet => 3 | .sCas => 2 | .sSpawn => 1
+  | .load => if sh.state = 0 then 8 else if sh.state = 1 then 6 else 1
+  | .cas => if 2 ≤ sh.state then 2 else if l.seen = sh.state then (if sh.state = 0 then 7 else 5) else 7
+  | .body => 3 | .fin => 2 | .done => 0
+
+def uMu (c : Cfg UShared ULocal) : Nat := (c.ths.map (uWeight c.sh)).sum
+
+def uFinal (ord : StartOrder) (n : Nat) (s : Schedule) : Cfg UShared ULocal :=
+  run (uProg ord) (s ++ rounds (n + 1) (8 * n + 5)) (uInit ord n)
+
+/-! ## Close against a background loop that is in the middle of a tick
+
+The in-memory storage's cleaner (internal/core/storage/memory/memory_ops.go `StartCleanup`):
+`for { select { case <-ticker.C: CleanupExpired() (takes m.mu); case <-m.cleanupStop: return } }`,
+the stop channel field being re-read at every `select`.  `StopCleanup` (run once, by the dispose
+latch, under `m.mu`) stops the ticker and closes the channel.  Thread 0 is a reader that holds
+`m.mu` (pending I/O) until it is unblocked, thread 1 the cleaner with a budget of `k` ticks (a tick
+that is ready is taken even if the stop channel is closed too: adversarial `select`), threads
+2… are closers.  `StopVariant.replace` is the rejected variant that installs a fresh channel in
+the field after closing the old one. -/
+
+inductive StopVariant | keep | replace
+  deriving DecidableEq, Repr
+
+structure GShared where
+  lock : Option Nat        -- m.mu
+  latch : Bool             -- Dispose.closed
+  tickerStopped : Bool
+  gen : Nat                -- which channel object is in the field m.cleanupStop
+  closedUpTo : Nat         -- channel objects with a smaller number are closed
+  deriving DecidableEq, Repr
+
+inductive GPc | rHold | cLatch | cStop | enter | wait | tick | done
+  deriving DecidableEq, Repr
+
+structure GLocal where
+  pc : GPc
+  k : Nat                  -- cleaner: ticks still to come
+  g : Nat                  -- cleaner: channel object this select waits on
+  deriving DecidableEq, Repr
+
+def gStep (v : StopVariant) (_tid : Nat) (sh : GShared) (l : GLocal) : GShared × GLocal :=
+  match l.pc with
+  | .rHold => ({ sh with lock := none }, { l with pc := .done })
+  | .cLatch => if sh.latch then (sh, { l with pc := .done }) else ({ sh with latch := true }, { l with pc := .cStop })
+  | .cStop =>
+    match sh.lock with
+    | some _ => (sh, l)
+    | none => ({ sh with tickerStopped := true, closedUpTo := sh.gen + 1,
+                         gen := match v with | .keep => sh.gen | .replace => sh.gen + 1 },
+               { l with pc := .done })
+  | .enter => (sh, { l with pc := .wait, g := sh.gen })
+  | .wait =>
+    match l.k with
+    | k' + 1 => (sh, { l with pc := .tick, k := k' })
+    | 0 => if l.g < sh.closedUpTo then (sh, { l with pc := .done }) else (sh, l)
+  | .tick =>
+    match sh.lock with
+    | some _ => (sh, l)
+    | none => (sh, { l with pc := .enter })
+  | .done => (sh, l)
+
+def gProg (v : StopVariant) : Prog GShared GLocal := ⟨gStep v⟩
+
+def gInit (k n : Nat) : Cfg GShared GLocal :=
+  ⟨⟨some 0, false, false, 0, 0⟩,
+   ⟨.rHold, 0, 0⟩ :: ⟨.enter, k, 0⟩ :: List.replicate n ⟨.cLatch, 0, 0⟩⟩
+
+def gWeight (l : GLocal) : Nat :=
+  match l.pc with
+  | .rHold => 1 | .cLatch => 2 | .cStop => 1
+  | .enter => 3 * l.k + 2 | .wait => 3 * l.k + 1 | .tick => 3 * l.k + 3
+  | .done => 0
+
+def gMu (c : Cfg GShared GLocal) : Nat := (c.ths.map gWeight).sum
+
+def gFinal (v : StopVariant) (k n : Nat) (s : Schedule) : Cfg GShared GLocal :=
+  run (gProg v) (s ++ rounds (n + 2) (3 * k + 3 + 2 * n)) (gInit k n)
+
+/-! ## Bridge.Close and connections attached late
+
+`SetTargetConnection` / `SetSourceConnection` (bridge_connection.go) put a new tunnel connection
+into the bridge under `tunnelConnMu`, also after an earlier `Close` (a handler that had looked the
+bridge up before it was closed).  Every `Close` call re-runs the connection teardown (close and
+nil under the locks); only the dispose latch is once-only — that is what lets
+`runBridgeLifecycle`'s deferred `Close` tear down a connection attached after an earlier `Close`.
+`guard = true` is the rejected variant "already closed → return" at the top of `Close`. -/
+
+structure AShared where
+  srcTC : Bool            -- sourceTunnelConn non-nil
+  tgtTC : Bool
+  satt : Nat              -- source / target connections ever attached
+  stc : Nat               -- Close calls on source / target tunnel connections
+  tatt : Nat
+  ttc : Nat
+  lostS : Nat             -- connections overwritten by a later attach while still attached
+  lostT : Nat
+  closed : Bool           -- dispose latch
+  deriving DecidableEq, Repr
+
+inductive APc | a1 | a2 | a3 | attS | attT | done
+  deriving DecidableEq, Repr
+
+def aStep (guard : Bool) (_tid : Nat) (sh : AShared) (l : APc) : AShared × APc :=
+  match l with
+  | .a1 => if guard && sh.closed then (sh, .done) else (sh, .a2)      -- sourceConnMu section (forwarder)
+  | .a2 => ({ sh with srcTC := false, tgtTC := false, stc := sh.stc + b2n sh.srcTC, ttc := sh.ttc + b2n sh.tgtTC }, .a3)
+  | .a3 => ({ sh with closed := true }, .done)
+  | .attS => ({ sh with srcTC := true, satt := sh.satt + 1, lostS := sh.lostS + b2n sh.srcTC }, .done)
+  | .attT => ({ sh with tgtTC := true, tatt := sh.tatt + 1, lostT := sh.lostT + b2n sh.tgtTC }, .done)
+  | .done => (sh, .done)
+
+def aProg (guard : Bool) : Prog AShared APc := ⟨aStep guard⟩
+
+/-- A bridge created with its source connection. -/
+def aInit (pcs : List APc) : Cfg AShared APc := ⟨⟨true, false, 1, 0, 0, 0, 0, 0, false⟩, pcs⟩
+
+/-- One uninterrupted `Close` call (the last one: `runBridgeLifecycle`'s deferred Close). -/
+def closeSeq (guard : Bool) (sh : AShared) : AShared :=
+  match (aStep guard 0 sh .a1).2 with
+  | .a2 => (aStep guard 0 (aStep guard 0 sh .a2).1 .a3).1
+  | _ => sh
+
 end Tunnox.C16
